@@ -254,6 +254,7 @@ def run(res):
   mmdesign.run_design_level(res, 'C14')
   _, _, stats = mm.run_search_clauses(res, owner='C14', count=(1500 if thorough else 140))
   mm.vacuity_guard(res, 'C14', stats)
+  mm.run_large_greedy(res, 'C14')
   res.exhaustive = False
   res.rule = ('(R) all push histories over 2 keys x 3 values x 2 tags, cap 0..%d, length <= %d, enumerated by TLC and '
               'replayed; (T) %d random runs (cap 0..8, 1-4 keys of str/int/float type, 3-80 pushes, many ties) '
